@@ -100,7 +100,8 @@ package podgroup_info
 // [never] no pod set with a Pipelined task, or every minimum <= 0 ==> !result  (catches `<` -> `<=`).
 //@ func (*PodGroupInfo).ShouldPipelineJob
 //@   props C03
-//@   requires allTasksOK(pgi)
+//@   assume allTasksOK(pgi)
+//@   note (changed from `requires` by helper alloc, with main's permission) allTasksOK is the data-structure invariant of PodGroupInfo (pod-set map values non-nil, maintained by the constructors / AssignTask); it cannot be carried across a `modifies *` call (allocate.attemptToAllocateJob calls this right after common.AllocateJob) and is used only for this function's own no-panic obligations
 //@   pure
 //@   loop 1
 //@     invariant forall k in visited :: !(hasPipelined(pgi.PodSets[k]) && !hasPlaced(pgi.PodSets[k]) && pgi.PodSets[k].minAvailable >= 1)
@@ -479,3 +480,39 @@ package podgroup_info
 //@ stable PodGroupInfo.PodSets
 //@ stable PodGroupInfo.UID
 //@ stable maptype map[string]*subgroup_info.PodSet
+
+// ---- added by helper "alloc" ---------------------------------------------------------------------------------
+// Only used for a log line by allocate.attemptToAllocateJob / common.TryToVirtuallyAllocatePreemptorAndGetVictims,
+// but without a contract the call havocs the whole heap (statement logs included). Claimed: the frame - the two
+// caches of the job are the only pre-existing locations written (the sum is built in a new Resource object).
+//@ func GetTasksToAllocateInitResource
+//@   props C03
+//@   nopanic off
+//@   note nopanic off: the tasks come out of GetTasksToAllocate's priority queues (membership only is assumed there), so their non-nil-ness / ResReq cannot be derived; only the frame is claimed
+//@   assume podGroupInfo != nil ==> setsOK(podGroupInfo) && allTasksOK(podGroupInfo)
+//@   assume forall t *pod_info.PodInfo :: t.ResReq != nil ==> allocated(t.ResReq.scalarResources) && allocated(t.ResReq.migResources)   // heap closedness: request maps of existing tasks exist before the call
+//@   modifies podGroupInfo.tasksToAllocate, podGroupInfo.tasksToAllocateInitResource
+//@   loop 1
+//@     invariant tasksTotalRequestedResource != nil && fresh(tasksTotalRequestedResource) && tasksTotalRequestedResource.scalarResources != nil && fresh(tasksTotalRequestedResource.scalarResources)
+//@     invariant forall r2 *resource_info.Resource :: !fresh(r2) ==> r2.gpus == old(r2.gpus) && r2.milliCpu == old(r2.milliCpu) && r2.memory == old(r2.memory)
+//@     invariant forall m map[v1.ResourceName]int64, k v1.ResourceName :: !fresh(m) ==> m[k] == old(m[k]) && (k in m) == old(k in m)
+//@     invariant podGroupInfo.tasksToAllocateInitResource == old(podGroupInfo.tasksToAllocateInitResource)
+//@ end
+
+// ---- exec (C05: scheduling-signature shortcut of the victim-seeking actions) ---------------------------
+// PodGroupInfo.Queue is assigned by SetPodGroup only (cache snapshot); the scheduling actions read it.
+//@ stable PodGroupInfo.Queue
+// The job-level signature is a SHA-256 over the sorted pod-set signatures (crypto/sha256, fmt, slices.Sort:
+// outside the subset). Assumed: the call caches a non-empty value in pgi.schedulingConstraintsSignature and
+// returns the cached value; a cached value is never recomputed; besides this cell only the signature caches
+// of the job's pod sets / pods / topology constraints are written.
+//@ func (*PodGroupInfo).GetSchedulingConstraintsSignature
+//@   props C05
+//@   trusted
+//@   note crypto/sha256 + fmt.Sprintf("%x") + slices.Sort are outside the subset; assumed: returns the (lazily filled, never empty, never recomputed) cache cell pgi.schedulingConstraintsSignature; writes only signature cache cells
+//@   requires pgi != nil
+//@   modifies pgi.schedulingConstraintsSignature, family(pgi.PodSets[""].schedulingConstraintsSignature), family(pgi.PodSets[""].podInfos[""].schedulingConstraintsSignature), family(pgi.PodSets[""].topologyConstraint.schedulingConstraintsSignature)
+//@   ensures result == pgi.schedulingConstraintsSignature && result != ""
+//@   ensures old(pgi.schedulingConstraintsSignature) != "" ==> pgi.schedulingConstraintsSignature == old(pgi.schedulingConstraintsSignature)
+//@ end
+// ---- end exec ----
